@@ -1,5 +1,5 @@
 (* C06 property theorems: structural edits relocate grid content exactly (sheet core). *)
-From VF Require Import Base.Prelude Generated.Consts Sheet.Model Sheet.Proofs Sheet.Adjust Sheet.AdjustProofs.
+From VF Require Import Base.Prelude Generated.Consts Sheet.Model Sheet.Proofs Sheet.Adjust Sheet.AdjustProofs Sheet.DupProofs.
 
 Theorem C06_insert_rows_refines : forall rw n sh sh', insert_rows rw n sh = Ok sh' ->
   forall c r, 1 <= c -> 1 <= r -> abs sh' c r = shift_rows_spec rw n (abs sh) c r.
@@ -40,6 +40,31 @@ Theorem C06_reject_atomic : forall sh rw n col e,
   (insert_cols col n sh = Err e -> estep sh (EInsertCols col n) = sh).
 Proof. intros. split; [apply estep_reject_rows|apply estep_reject_cols]. Qed.
 Print Assumptions C06_reject_atomic.
+
+(* DuplicateRowTo (and DuplicateRow = DuplicateRowTo r (r+1)): the copy sits at the target row and shows what the
+   source row showed, with the source row's attributes; everything from the target row on moves down by one;
+   everything above is untouched; removing the copy restores the sheet; a rejected call changes nothing *)
+Theorem C06_dup_row_refines : forall rw rw2 sh sh', dup_row_to rw rw2 sh = Ok sh' -> merges sh = [] -> rw <> rw2 -> 1 <= rw2 ->
+  (forall c r, 1 <= c -> 1 <= r -> abs sh' c r = dup_rows_spec rw rw2 (abs sh) c r) /\
+  (forall r, 1 <= r -> row_attrs sh' r =
+     if r <? rw2 then row_attrs sh r else if r =? rw2 then row_attrs sh rw else row_attrs sh (r - 1)).
+Proof. intros rw rw2 sh sh' H Hm Hn H2. exact (conj (dup_row_to_refines rw rw2 sh sh' H Hm Hn H2) (dup_row_to_attrs rw rw2 sh sh' H Hm Hn H2)). Qed.
+Print Assumptions C06_dup_row_refines.
+
+Theorem C06_dup_remove_id : forall rw rw2 sh sh1 sh2, dup_row_to rw rw2 sh = Ok sh1 -> remove_row rw2 sh1 = Ok sh2 ->
+  merges sh = [] -> rw <> rw2 -> 1 <= rw2 -> forall c r, 1 <= c -> 1 <= r -> abs sh2 c r = abs sh c r.
+Proof. exact dup_remove_id. Qed.
+Print Assumptions C06_dup_remove_id.
+
+Theorem C06_dup_reject_atomic : forall rw rw2 sh e, dup_row_to rw rw2 sh = Err e -> estep sh (EDupRowTo rw rw2) = sh.
+Proof. exact estep_reject_dup. Qed.
+Print Assumptions C06_dup_reject_atomic.
+
+Example C06_dup_ex :
+  let sh := erun [EBase (OSet 1 1 0 [49]); EBase (OSet 2 3 0 [51]); EBase (ORowStyle 3 7); EDupRowTo 3 1; EDupRowTo 2 9] empty_sheet in
+  (observe sh 2 1, observe sh 1 2, observe sh 2 4, observe sh 1 9, row_attrs sh 1, row_attrs sh 4, row_attrs sh 9) =
+  ((0, [51], None, 7), (0, [49], None, 0), (0, [51], None, 7), (0, [49], None, 0), (7, None, false), (7, None, false), (0, None, false)).
+Proof. vm_compute. reflexivity. Qed.
 
 Example C06_ex :
   let sh := erun [EBase (OSet 2 2 0 [53]); EBase (OMerge 2 3 3 4); EBase (ORowStyle 3 7); EInsertRows 3 2; EInsertCols 1 1; ERemoveRow 1] empty_sheet in
